@@ -511,3 +511,8 @@ CORPUS += [
     V("C03", "eq-mtsp-closing-leg-guard-commuted", _MT, "            done & ~was_done,\n", "            ~was_done & done,\n", None),
     V("C03", "eq-mtsp-closing-leg-guard-logical-and", _MT, "            done & ~was_done,\n", "            torch.logical_and(done, ~was_done),\n", None),
 ]
+_MCE = G_ + "mcp/env.py"
+CORPUS += [
+    V("C08", "mcp-covered-indicator-never-true", _MCE, "        covered_items = (chosen_items > 0).float()", "        covered_items = (chosen_items < 0).float()", "C08.d"),
+    V("C08", "eq-mcp-covered-indicator-mirrored", _MCE, "        covered_items = (chosen_items > 0).float()", "        covered_items = (0 < chosen_items).float()", None),
+]
